@@ -188,7 +188,8 @@ META = {
             "their transformations induce, the code is shown to apply permutation and transformation of one and the same "
             "candidate, the sets are a partition by construction with multiplicity = size, and the getters are typed over "
             "the original/primitive/conventional index spaces. Orbit closure of the returned structure for a concrete "
-            "crystal depends on spglib at run time and is not decided.",
+            "crystal depends on spglib at run time and is not decided."
+            " Also: orbits are read from crystallographic_orbits (not the input cell's equivalent_atoms), the normalizer is applied in the table's convention, memo attributes are cleared by reset() and keyed by the arguments they depend on.",
     "note": "trusted: spglib Hall database; WYCKOFF_SETS positions (themselves proved closed orbits under C14); CPython ast.",
     "technique": "exact table obligations (induced permutations) + def-use same-candidate rule + index-space typing",
 }
